@@ -160,10 +160,13 @@ impl PageLockShard {
         entry
     }
 
-    fn try_cleanup(&self, page_id: PageId, entry: &PageLockEntry) {
+    fn try_cleanup(&self, page_id: PageId, entry: &Arc<PageLockEntry>) {
+        let mut map = self.locks.lock();
         if entry.release() {
-            let mut map = self.locks.lock();
-            if entry.ref_count.load(Ordering::Acquire) == 0 {
+            let is_current = map
+                .get(&page_id)
+                .is_some_and(|current| Arc::ptr_eq(current, entry));
+            if is_current {
                 map.remove(&page_id);
             }
         }
